@@ -30,6 +30,7 @@ type Obligation struct {
 	Inputs map[string]string // model-relevant named inputs: label -> smt term
 	// results
 	Status  string
+	Cover   string
 	Solver  string
 	Seconds float64
 	Output  string
@@ -112,6 +113,7 @@ type frame struct {
 	retStates []*retRec
 	top      bool
 	siteOK   map[*ssa.Alloc]bool
+	lastRange string
 }
 
 type retRec struct {
@@ -130,6 +132,7 @@ type loopInfo struct {
 	hvars   map[string]TV
 	writes  map[string]bool
 	head    *state
+	entry   *state
 }
 
 func (fc *fnCtx) abstract(format string, a ...interface{}) {
@@ -321,6 +324,7 @@ func (e *Engine) genFunction(fn *ssa.Function) (fc *fnCtx, err error) {
 		_ = i
 	}
 	fr.bindParams(args)
+	fr.params["fn"] = TV{T: e.u.fnID(fc.key), Sort: "Int"}
 	fr.old = st.clone()
 	// requires
 	env := fr.specEnv(st, fr.old)
@@ -342,6 +346,14 @@ func (e *Engine) genFunction(fn *ssa.Function) (fc *fnCtx, err error) {
 			label := en.Label
 			if label == "" {
 				label = fmt.Sprintf("e%d", i+1)
+			}
+			t := env.evalBool(en.Expr, en.Src)
+			fr.oblige(rr.st, "post", label, rr.instr.Pos(), t, en.Src)
+		}
+		for i, en := range fc.c.Asserts {
+			label := en.Label
+			if label == "" {
+				label = fmt.Sprintf("a%d", i+1)
 			}
 			t := env.evalBool(en.Expr, en.Src)
 			fr.oblige(rr.st, "post", label, rr.instr.Pos(), t, en.Src)
@@ -380,7 +392,9 @@ func (fc *fnCtx) newFrame(fn *ssa.Function, parent *frame) *frame {
 func (fr *frame) bindParams(args []string) {
 	for i, p := range fr.fn.Params {
 		fr.regs[p] = args[i]
-		fr.params[p.Name()] = TV{T: args[i], Sort: fr.fc.e.u.sortOf(p.Type()), Typ: p.Type()}
+		tv := TV{T: args[i], Sort: fr.fc.e.u.sortOf(p.Type()), Typ: p.Type()}
+		fr.params[fmt.Sprintf("a%d", i)] = tv
+		fr.params[p.Name()] = tv
 	}
 }
 
@@ -761,6 +775,7 @@ func (fr *frame) enterLoop(h *ssa.BasicBlock, li *loopInfo, cur *state) {
 	sc := fc.sc
 	u := fc.e.u
 	spec := li.spec
+	li.entry = cur.clone()
 	// 1. establish invariants on each forward edge
 	for i, p := range h.Preds {
 		if h.Dominates(p) {
@@ -780,6 +795,7 @@ func (fr *frame) enterLoop(h *ssa.BasicBlock, li *loopInfo, cur *state) {
 		}
 		if spec != nil {
 			env := fr.specEnv(es, fr.old)
+			env.entry = li.entry
 			for k, v := range fr.loopVars(h) {
 				env.vars[k] = v
 			}
@@ -822,6 +838,7 @@ func (fr *frame) enterLoop(h *ssa.BasicBlock, li *loopInfo, cur *state) {
 	li.head = cur.clone()
 	if spec != nil {
 		env := fr.specEnv(cur, fr.old)
+		env.entry = li.entry
 		for k, v := range li.hvars {
 			env.vars[k] = v
 		}
@@ -864,6 +881,7 @@ func (fr *frame) backEdge(p *ssa.BasicBlock, h *ssa.BasicBlock, es *state) {
 	}
 	if li.spec != nil {
 		env := fr.specEnv(es, fr.old)
+		env.entry = li.entry
 		for k, v := range li.hvars {
 			env.vars[k] = v
 		}
